@@ -348,6 +348,11 @@ func (s *StateMachine) GetParamsGov() (ptr *GovernanceParams, err lib.ErrorI) {
 	ptr = new(GovernanceParams)
 	// get the governance parameters from state
 	err = s.getParams(ParamSpaceGov, ptr, ErrEmptyGovParams)
+	// the all-zero governance params (daoRewardPercentage = 0, a valid value) encode to zero bytes, which the state
+	// cannot tell apart from a missing value: treat 'empty' as the zero value instead of failing every block
+	if err != nil && err.Code() == ErrEmptyGovParams().Code() {
+		return new(GovernanceParams), nil
+	}
 	// exit
 	return
 }
